@@ -252,37 +252,62 @@ class _Proxy:
         return getattr(self.__dict__["_real"], k)
 
 
+PROMPT_CAP = 40
+
+
+class PromptLoop(BaseException):
+    """The command is still prompting after PROMPT_CAP answers: it would never return. (BaseException:
+    nothing in the code under test may swallow it.)"""
+
+
 class Operator:
-    """stdin lines and getpass answers handed out from a script; each hand-out is an event in the
-    world's log (interleaved with the device exchanges, carrying the device's ground truth)."""
+    """The operator's input, behaving like a real stdin / terminal: lines and PINs are handed out from a
+    script, and once the script is used up the input is at END-OF-FILE - `sys.stdin.readline()` returns
+    "" (for ever), `getpass()` raises EOFError. Each hand-out is an event in the world's log
+    (interleaved with the device exchanges, carrying the device's ground truth). A hard cap on the
+    number of hand-outs turns a command that never stops prompting into an observation."""
 
     def __init__(self, world, lines, pins, recall=None):
         self.world = world
         self.lines = list(lines)        # [(text, class)]
         self.pins = list(pins)          # [str]
-        self.recall = recall            # callable -> str | None : "the PIN I have just set"
+        self.recall = recall            # callable -> str | None : "the PIN I have just set" (typed once)
         self.typed = []
+        self.handed = 0
+        self.looping = False
+        self.ended = None               # callable -> bool : the operator's input has ended by now
 
     def _emit(self, ev):
         ev["truth"] = self.world.device.snapshot()
         self.world.emit(ev)
 
+    def _count(self):
+        self.handed += 1
+        if self.handed > PROMPT_CAP:
+            self.looping = True
+            raise PromptLoop("still prompting after %d answers" % PROMPT_CAP)
+
     # sys.stdin stand-in
     def readline(self):
+        self._count()
         if not self.lines:
-            # a real terminal would block / return "" for ever; the script ends the run instead
             self._emit({"ev": "stdin", "cls": "eof", "line": None})
-            raise EOFError("operator script exhausted (stdin)")
+            return ""
         text, cls = self.lines.pop(0)
         self._emit({"ev": "stdin", "cls": cls, "line": text})
         return text + "\n"
 
     def getpass(self, prompt="", stream=None):
-        r = self.recall() if self.recall is not None else None
+        self._count()
+        r = None
+        if self.recall is not None:
+            r = self.recall()
+            if r is not None:
+                self.recall = None      # typed once; after that the input goes on as scripted
         if r is None:
-            if not self.pins:
+            if not self.pins or (self.ended is not None and self.ended()):
                 self._emit({"ev": "getpass", "ok": "f", "pin": None})
-                raise EOFError("operator script exhausted (getpass)")
+                raise EOFError("end of the operator's input (getpass)")
             r = self.pins.pop(0)
         self.typed.append(r)
         self._emit({"ev": "getpass", "ok": "na", "pin": r})
@@ -390,8 +415,16 @@ def scenario_from_model(cfg, e, rng, boundary=False, member=None, favourable=Fal
     pinc = e["pinc"] if e["pinc"] != "?" else ("ok" if favourable else rng.choice(sorted(PIN_MEMBERS)))
     first = member if member is not None else pin_of_class(pinc, rng, boundary)
     pins = [first]
-    if cfg["src"] == "prompt" and e["retry"] == "valid":
-        pins.append(pin_of_class("ok", rng))
+    if cfg["src"] == "prompt":
+        # what follows a rejected entry: a compliant one, nothing (end of input), or a second rejected
+        # entry first (another member of the class, or of another class that is refused as well)
+        if e["retry"] in ("r2valid", "r2eof"):
+            pins.append(pin_of_class(pinc if rng.random() < 0.6 else rng.choice(["ascii", "hi8", "noise"]),
+                                     rng))
+        if e["retry"] in ("valid", "r2valid"):
+            pins.append(pin_of_class("ok", rng))
+        if e["retry"] == "eof0":
+            pins = []
     answers = _pick(e["answers"], ["yes", "no", "oy", "on"], rng)
     onb = e["onb"]
     if onb == "?":
@@ -405,7 +438,9 @@ def scenario_from_model(cfg, e, rng, boundary=False, member=None, favourable=Fal
         echo=_pick(e["echo"], ["t", "f"], rng), answers=answers,
         wipe=_pick(e["wipe"], ["t"], rng), unlock=_pick(e["unlock"], ["t", "f"], rng),
         newpin=_pick(e["newpin"], ["t", "f"], rng), mode2=_pick(e["mode2"], MODES, rng),
-        keys=_pick(e["keys"], ["t", "f"], rng), keys_fail_at=0, rng=rng, shapes=shapes, pre=pre, link=link)
+        keys=_pick(e["keys"], ["t", "f"], rng), keys_fail_at=0, rng=rng, shapes=shapes, pre=pre, link=link,
+        enter=("other" if e.get("enter", "?") == "?" else e["enter"]),
+        post=("retype" if e.get("post", "?") == "?" else e["post"]))
     sc.desc["pinc"] = pinc
     return sc
 
@@ -450,12 +485,12 @@ def pin_decisive(b):
     cfg, e = b["cfg"], b["env"]
     if e["pinc"] == "?":
         return False
-    return b["outcome"] == "ok" or (cfg["src"] == "opt" and not b["hist"]) or e["retry"] == "eof"
+    return b["outcome"] == "ok" or (cfg["src"] == "opt" and not b["hist"]) or e["retry"] in ("eof", "r2eof")
 
 
 def build(op, plat, any_pin, no_unlock, src, pins, outfile, mode, onb, echo, answers, wipe, unlock,
           newpin, mode2, keys, rng, keys_fail_at=None, upin=None, strict=False, no_exec=False,
-          devseed=None, cli=False, shapes=None, pre="absent", link=None):
+          devseed=None, cli=False, shapes=None, pre="absent", link=None, enter="other", post="retype"):
     """The concrete environment of one run (all fields are plain data: the replay file is this).
     `shapes`: {echo, onb, wipe, unlock, unlock_byte, newpin} -> how the device words that answer."""
     shapes = shapes or {}
@@ -475,7 +510,8 @@ def build(op, plat, any_pin, no_unlock, src, pins, outfile, mode, onb, echo, ans
                 newpin_how=shapes.get("newpin") or rng.choice(NEWPIN_SHAPES[plat]),
                 yes=rng.choice(YES), no=rng.choice(NO), other=rng.choice(OTHER),
                 verbose=rng.random() < 0.3, cli=bool(cli),
-                pre=pre, pre_devseed=rng.randrange(1 << 30), link=link)
+                pre=pre, pre_devseed=rng.randrange(1 << 30), link=link, enter=enter, post=post,
+                cli_form=rng.choice(["long", "short"]))
     return Scenario(desc=desc)
 
 
@@ -518,7 +554,9 @@ def acceptance(d):
 
 
 def answer_lines(d):
-    seq = {"yes": ["yes"], "no": ["no"], "oy": ["other", "yes"], "on": ["other", "no"]}[d["answers"]]
+    # "eof" / "oeof": the operator's input ends at the first prompt / after one other answer
+    seq = {"yes": ["yes"], "no": ["no"], "oy": ["other", "yes"], "on": ["other", "no"],
+           "eof": [], "oeof": ["other"]}[d["answers"]]
     return [(d[c], c) for c in seq]
 
 
@@ -618,16 +656,22 @@ def run(sc, scratch, tag, prev_seed=None, out_path=None):
     d0 = {"mode": mode_name(dev.mode),
           "onb": "garbled" if dev.onb_shape else ("yes" if dev.onboarded else "no"),
           "echo": "t" if dev.echo_ok else "f"}
-    lines = answer_lines(d) + [("", "other")] if d["op"] == "onboard" else []
+    lines = []
+    if d["op"] == "onboard":
+        # the answers to "proceed?", then [Enter] - unless the input has ended by then
+        lines = answer_lines(d) + ([("", "other")] if d.get("enter", "other") != "eof" else [])
     prompt_pins = list(d["pins"]) if d["src"] == "prompt" else []
 
     def recall():
         # after a successful onboarding the operator types the PIN (s)he has just set
-        if d["op"] == "onboard" and dev.received_seed is not None:
+        if d["op"] == "onboard" and dev.received_seed is not None and d.get("post", "retype") != "eof":
             return operator.typed[-1] if operator.typed else dev.pin.decode("utf-8", "surrogateescape")
         return None
     install_link_fault(world, d.get("link"))
     operator = Operator(world, lines, prompt_pins, recall)
+    # "post = eof": nothing more is typed once the device has been onboarded
+    operator.ended = lambda: (d["op"] == "onboard" and dev.received_seed is not None
+                              and d.get("post", "retype") == "eof")
     rnd = Randomness(world)
     if out_path is None and d["outfile"]:
         out_path = os.path.join(scratch, "%s_%s.%s" % (d["op"], tag,
@@ -656,6 +700,9 @@ def run(sc, scratch, tag, prev_seed=None, out_path=None):
             else:
                 fn(options)
                 outcome = "ok"
+        except PromptLoop as e:
+            outcome = "hang"             # never returns: still prompting after PROMPT_CAP answers
+            exc = "%s: %s" % (type(e).__name__, e)
         except BaseException as e:   # noqa: AdminError, HSM2DongleError, ValueError, EOFError, SystemExit
             outcome = "err"
             exc = "%s: %s" % (type(e).__name__, str(e)[:120])
@@ -685,20 +732,34 @@ def run_cli(d, options):
     import adm_ledger
     import adm_sgx
     argv = ["adm_%s.py" % d["plat"], d["op"]]
+    short = d.get("cli_form") == "short"
+
+    def valued(long, letter, value):
+        # long form: --name=value; short form: -x value (attached, -xvalue, when the value starts with
+        # a dash or is empty, which argparse would otherwise take for another option)
+        if not short:
+            argv.append("--%s=%s" % (long, value))
+        elif value.startswith("-") or value == "":
+            argv.append("-%s%s" % (letter, value))
+        else:
+            argv.extend(["-%s" % letter, value])
+
+    def flag(long, letter):
+        argv.append(("-%s" % letter) if short else ("--%s" % long))
     if options.pin is not None:
-        argv.append("--pin=%s" % options.pin)
+        valued("pin", "p" if d["plat"] == "ledger" else "P", options.pin)
     if options.new_pin is not None:
-        argv.append("--newpin=%s" % options.new_pin)
+        valued("newpin", "n", options.new_pin)
     if options.any_pin:
-        argv.append("--anypin")
+        flag("anypin", "a")
     if options.output_file_path is not None:
-        argv.append("--output=%s" % options.output_file_path)
+        valued("output", "o", options.output_file_path)
     if options.no_unlock:
-        argv.append("--nounlock")
+        flag("nounlock", "u")
     if options.no_exec and d["plat"] == "ledger":
-        argv.append("--noexec")
+        flag("noexec", "e")
     if options.verbose:
-        argv.append("--verbose")
+        flag("verbose", "v")
     saved, _sys.argv = _sys.argv, argv
     err = io.StringIO()
     saved_err, _sys.stderr = _sys.stderr, err
